@@ -330,6 +330,10 @@ func scenarioForged(c *harness.Ctx) {
 	}
 	valid := frame.Build(7, []byte("after"), compression, false)
 	useConn := tp.Bool(1, 2)
+	bigReceiver := tp.Bool(1, 2)
+	if bigReceiver {
+		pForgedBigReceiver.Hit()
+	}
 	cfg := simnet.DrawCfgFor(tp, len(forged))
 	c.Config["kind"] = kind
 	c.Config["threshold"] = threshold
@@ -344,6 +348,11 @@ func scenarioForged(c *harness.Ctx) {
 		})
 		w.Go("victim", func() {
 			var got pk.Packet
+			if bigReceiver {
+				// a receiver that already owns a large buffer (pre-allocated by the
+				// caller, or left over from building a big packet)
+				got.Data = make([]byte, 16, 5<<20)
+			}
 			var err error
 			if useConn {
 				conn := mcnet.WrapConn(link.B)
@@ -388,3 +397,5 @@ var prop = &harness.Property{
 }
 
 func TestWorker(t *testing.T) { harness.Main(t, prop) }
+
+var pForgedBigReceiver = simrt.NewProbe("forged.receiver.with.pre-allocated.capacity>2MiB")
